@@ -116,7 +116,17 @@ func (o *Origin) serve(w http.ResponseWriter, r *http.Request) {
 			w.Header().Set("Content-Type", b.CType)
 		}
 		w.WriteHeader(200)
-		_, _ = w.Write(b.Body)
+		if o.Fragment.Load() && len(b.Body) > 8 {
+			// two pieces, flushed separately (the response is then chunked, without Content-Length)
+			_, _ = w.Write(b.Body[:len(b.Body)/3])
+			if f, ok := w.(http.Flusher); ok {
+				f.Flush()
+			}
+			time.Sleep(time.Millisecond)
+			_, _ = w.Write(b.Body[len(b.Body)/3:])
+		} else {
+			_, _ = w.Write(b.Body)
+		}
 	case "status":
 		w.WriteHeader(b.Code)
 		_, _ = w.Write(b.Body)
